@@ -1,32 +1,60 @@
-(* C19 — results independent of call history.
-   PROVED: the trace-depth counter is never lowered by any call; it is
-   restored exactly by every call that returns normally without catching a
-   failure inside; a failing call can only leave it raised.
-   FULL STATEMENT (tied by correspondence: every history is replayed against
-   the model started from the leaked counter AND against the history-free
-   spec): run_tagged_from t e = run_tagged_from (-1) e for every t >= -1
-   (invariance of the evaluator under a shift of all trace ids). *)
+(* C19 - results independent of call history.
+   The evaluator is parametrised by its id supply.  SUPPLY (Run08.v) names the
+   one /repo implements; the correspondence run replays whole call histories
+   with planted faults against the model started from the state the history
+   left AND against the history-free spec.
+   PROVED, pinned design (shared depth counter, one thread): the counter is
+   never lowered; it is restored exactly by every try-free call that returns
+   normally; a failing call can only leave it raised.
+   PROVED, repaired design (strictly increasing supply, never decremented): the
+   counter never decreases whatever happened before and whatever other threads
+   draw, and each new trace id is strictly larger than the counter - hence than
+   every id handed out earlier in the history.
+   FULL STATEMENT, tied by correspondence only: the result of every call is the
+   same from every reachable counter state (invariance of the evaluator under
+   order-preserving renaming of trace ids). *)
 From Coq Require Import List ZArith.
 Import ListNotations.
 From AG Require Import Toposort Tagged Tower Run08 TaggedProof.
 
 Theorem C19_depth_counter_monotone_and_restored :
   forall (K : Type) k0 k1 kadd ksub kmul kopp kF ksign kpos kofZ fuel env e s r s',
-    eval K k0 k1 kadd ksub kmul kopp kF ksign kpos kofZ fuel env e s = (r, s') ->
-    (top K s <= top K s')%Z
+    noise K s = [] ->
+    eval K k0 k1 kadd ksub kmul kopp kF ksign kpos kofZ Depth fuel env e s = (r, s') ->
+    noise K s' = [] /\ (top K s <= top K s')%Z
     /\ (no_try e = true -> forall v, r = Val v -> top K s' = top K s).
-Proof. exact eval_top. Qed.
+Proof.
+  intros K k0 k1 kadd ksub kmul kopp kF ksign kpos kofZ.
+  exact (eval_top_depth K k0 k1 kadd ksub kmul kopp kF ksign kpos kofZ Depth eq_refl).
+Qed.
 Print Assumptions C19_depth_counter_monotone_and_restored.
 
-(* a failure inside an inner differentiation, caught by the enclosing one,
-   leaks one level; the result is still the fresh-interpreter result, also
-   when the whole call is repeated from the leaked state *)
+Theorem C19_increasing_supply_never_reuses_an_id :
+  forall (K : Type) k0 k1 kadd ksub kmul kopp kF ksign kpos kofZ,
+    (forall fuel env e s r s',
+        Forall (fun d => (0 <= d)%Z) (noise K s) ->
+        eval K k0 k1 kadd ksub kmul kopp kF ksign kpos kofZ Mono fuel env e s = (r, s') ->
+        Forall (fun d => (0 <= d)%Z) (noise K s') /\ (top K s <= top K s')%Z)
+    /\ (forall s t s',
+           Forall (fun d => (0 <= d)%Z) (noise K s) -> enter K s = (t, s') ->
+           (top K s < t)%Z /\ top K s' = t /\ Forall (fun d => (0 <= d)%Z) (noise K s')).
+Proof.
+  intros K k0 k1 kadd ksub kmul kopp kF ksign kpos kofZ. split.
+  - exact (eval_top_mono K k0 k1 kadd ksub kmul kopp kF ksign kpos kofZ Mono eq_refl).
+  - exact (enter_calm K).
+Qed.
+Print Assumptions C19_increasing_supply_never_reuses_an_id.
+
+(* a failure inside an inner differentiation, caught by the enclosing one: the
+   result is the fresh-interpreter result from every starting counter, under
+   both supplies (the depth counter leaks one level per failure) *)
 Example C19_examples :
   let inner := App2 PMul (App2 PMul (Var 1) (Var 0)) (Var 0) in
   let p := Grad (App2 PMul (Var 0)
                  (Try (Grad (App2 PMul Fail (Var 0)) (Const 1))
                       (Grad inner (Const 3)))) (Const 2) in
-  run_tagged_from (-1) p = (Some (Some 24%Z), 0%Z)
-  /\ run_tagged_from 0 p = (Some (Some 24%Z), 1%Z)
-  /\ run_tagged_from 5 p = (Some (Some 24%Z), 6%Z).
-Proof. vm_compute. repeat split; reflexivity. Qed.
+  let res sup t := match zeval_sup sup FUEL [] p {| top := t; store := []; noise := [] |} with
+                   | (Val v, s) => Some (strip Z v, top Z s) | _ => None end in
+  map (res Depth) [-1; 0; 5]%Z = [Some (24, 0); Some (24, 1); Some (24, 6)]%Z
+  /\ map (res Mono) [-1; 0; 5]%Z = [Some (24, 2); Some (24, 3); Some (24, 8)]%Z.
+Proof. vm_compute. split; reflexivity. Qed.
